@@ -524,3 +524,25 @@ fn c08_mapper_small<const LEAD: bool>() {
     core::mem::forget(trace);
     core::mem::forget(mapper);
 }
+
+// ------------------------------------------------------------------ exported single steps (for the differential harnesses in cache::verif_harness)
+
+/// One step of the *mapper* kernel on one entry given as plain numbers/strings.
+pub(crate) fn mapper_step_one<'a>(
+    startline: usize,
+    endline: usize,
+    original_class: Option<&'a str>,
+    original_file: Option<&'a str>,
+    original: &'a str,
+    original_startline: usize,
+    original_endline: Option<usize>,
+    frame: &mut StackFrame<'a>,
+) -> Option<StackFrame<'a>> {
+    let ents = [MemberMapping { startline, endline, original_class, original_file, original, original_startline, original_endline }];
+    let mut it = ents.iter();
+    if frame.parameters.is_none() {
+        iterate_with_lines(frame, &mut it)
+    } else {
+        iterate_without_lines(frame, &mut it)
+    }
+}
